@@ -217,7 +217,8 @@ CHECKS["C10"] = {
     "required_reach": ["expression.py:Expression.evaluate", "expression.py:Expression.evaluate_exp",
                        "expression.py:ExpressionTokenizer.tokenize", "types/base.py:BaseArray._read",
                        "parser.py:TokenParser._enum", "parser.py:TokenParser._constant"],
-    "required_cells": ["exhaustive", "random", "literal-forms", "in-situ", "c-compiler"],
+    "required_cells": ["exhaustive", "random", "literal-forms", "in-situ", "c-compiler", "identifier-spellings",
+                       "character-valued-names"],
     "exhaustive": {"quick": False, "thorough": False},
     "assumptions": ASSUME_COMMON + ["the reference evaluator vf/refexpr.py is the C-precedence specification"],
 }
